@@ -73,7 +73,8 @@ def lang_docs(rng, n):
                 kids.append(chain(d - 1))
                 if rng.random() < 0.4:
                     kids.append(chain(0))
-            return ('e', rng.choice(['div', 'p', 'span']), None, None, attrs, kids)
+            ns = gen.SVG if (kind != 'html' and rng.random() < 0.25) else None     # a foreign-namespace link in the chain
+            return ('e', rng.choice(['div', 'p', 'span']) if ns is None else rng.choice(['svg', 'g', 'circle']), None, ns, attrs, kids)
         body = ('e', 'body', None, None, [], [chain(depth)])
         head_kids = []
         if rng.random() < 0.5:
@@ -92,6 +93,19 @@ def lang_docs(rng, n):
         els = gen.elements(probe)
         qs = [('select', [], 0)] + [('match', enc.path_of(rng.choice(els)), 0) for _ in range(2)]
         cases.append({'kind': kind, 'tree': top, 'selector': sel, 'queries': qs})
+    # parser-built documents: html5lib (SVG/MathML under lang), lxml-xml (xml:lang as a namespaced attribute)
+    for _ in range(max(20, n // 6)):
+        l1, l2 = rng.choice(langs[:3] + ['de-CH', 'fr-CA']), rng.choice(langs[:3] + ['de-CH', 'fr-CA'])
+        if rng.random() < 0.5:
+            markup = (f'<html><body><div lang="{l1}"><svg id="s1"><circle id="c1"/><foreignObject><p id="h2">x</p></foreignObject></svg>'
+                      f'<math id="m1" lang="{l2}"><mi>x</mi></math><p id="h1">y</p></div></body></html>')
+            parser = 'html5lib'
+        else:
+            markup = (f'<?xml version="1.0"?><r xmlns:s="{gen.SVG}" xml:lang="{l1}"><a id="a1"><s:g id="g1" xml:lang="{l2}"><b id="b1"/></s:g></a>'
+                      f'<c lang="{l2}" id="c1"><d/></c></r>')
+            parser = 'xml'
+        sel = ':lang(' + rng.choice(['de', 'fr', 'en', '"de-*"', '"*-CH"', '""', '"*"', 'de-CH']) + ')'
+        cases.append({'markup': markup, 'parser': parser, 'selector': sel, 'queries': [('select', [], 0)]})
     return cases
 
 
